@@ -55,7 +55,30 @@ const A_BODY = [
   "  const m = x + '\\n    at inner (/somewhere/else.js:1:1)'",
   '  throw new Error(m) /*@a7*/',
   '}',
-  'module.exports = { a1, a2, a3, a4, a5, a6, a7 }'
+  '',
+  'function a8(x) {',
+  '  return [x + 1].map((q) => { /*@a8c*/',
+  "    throw new Error('a8' + q) /*@a8*/",
+  '  }) /*@a8c*/',
+  '}',
+  '',
+  'class K9 {',
+  '  constructor (x) {',
+  "    this.s = x + '!'",
+  "    throw new Error('a9') /*@a9*/",
+  '  }',
+  '',
+  '  get g () {',
+  "    throw new Error('a10' + this.q) /*@a10*/",
+  '  }',
+  '}',
+  'function a9(x) {',
+  '  return new K9(x) /*@a9c*/',
+  '}',
+  'function a10(x) {',
+  '  return Object.create(K9.prototype).g + x /*@a10c*/',
+  '}',
+  'module.exports = { a1, a2, a3, a4, a5, a6, a7, a8, a9, a10 }'
 ]
 const B_BODY = [
   'function b1(x) {',
@@ -117,12 +140,15 @@ const CALLS = {
   a5: (m) => m.a5('c', function driverCallback () { throw new Error('a5') }),
   a6: (m) => m.a6('k'),
   a7: (m) => m.a7('wrapped: Error: inner'),
+  a8: (m) => m.a8('n'), // a native frame (Array.map) between two frames of the file
+  a9: (m) => m.a9('k'), // constructor frame
+  a10: (m) => m.a10('g'), // getter frame
   b1: (m) => m.b1(' q ')
 }
 // sites of the position-collision file (see collisionFile)
 for (let k = 0; k < 16; k++) CALLS['s' + k] = (m) => m['s' + k]()
 // top-frame site of each call (null: the top frame is not in the rewritten file)
-const TOP = { a1: 'a1', a2: 'a2', a3: null, a4: 'a4', a5: null, a6: 'a6', a7: 'a7', b1: 'b1' }
+const TOP = { a1: 'a1', a2: 'a2', a3: null, a4: 'a4', a5: null, a6: 'a6', a7: 'a7', a8: 'a8', a9: 'a9', a10: 'a10', b1: 'b1' }
 
 function load (file, content) {
   const mod = { exports: {} }
